@@ -1,6 +1,7 @@
 package main
 
 import (
+	mozpkcs7 "go.mozilla.org/pkcs7"
 	"bufio"
 	"bytes"
 	"crypto"
@@ -139,6 +140,13 @@ func c06ChildMain() {
 		v := efivar.Efivar{Name: c.Name, GUID: &g, Attributes: attributes.Attributes(c.Attrs)}
 		k := keys.Get(c.Key)
 		cert := keys.Simple(k, "c06", c.Serial)
+		if c.Serial%3 == 2 {
+			// the same identity and key, but issued by a CA of another key type (the certificate's
+			// own signature algorithm is ECDSA; the key that signs the update is RSA)
+			if ec, err := keys.MintVia(&k.Priv.PublicKey, keys.ECCA(), keys.IssuerName(keys.IssShort, "c06"), big.NewInt(c.Serial), "subj-c06"); err == nil {
+				cert = ec
+			}
+		}
 		res := &c06Result{Case: c, Zone: zone, ZoneOff: off}
 		var signer crypto.Signer = k.Priv
 		if ci == 1 || ci == len(cases)-2 {
@@ -265,20 +273,25 @@ func checkC06(r *mon.Run) {
 	r.Assume("second-resolution timestamp; zones with offset 0 cannot show a local-time defect, hence several non-zero offsets including a 45-minute and a +14h one")
 	self, _ := os.Executable()
 	per := r.N(21, 400)
-	zones := []string{"UTC", "Asia/Tokyo", "America/Los_Angeles", "Asia/Kathmandu", "Pacific/Kiritimati", ""}
+	// a time zone, optionally followed by ";NAME=value" for further environment of the child
+	zones := []string{"UTC", "Asia/Tokyo", "America/Los_Angeles", "Asia/Kathmandu", "Pacific/Kiritimati", "",
+		"Europe/Berlin;SOURCE_DATE_EPOCH=1700000000;LC_ALL=C;LANG=de_DE.UTF-8"}
 	osslBudget := r.N(60, 600)
 	osslUsed := 0
-	for _, tz := range zones {
+	for _, tzspec := range zones {
+		parts := strings.Split(tzspec, ";")
+		tz := parts[0]
 		cmd := exec.Command(self, "-prop", "C06")
 		env := []string{}
 		for _, e := range os.Environ() {
-			if !strings.HasPrefix(e, "TZ=") {
+			if !strings.HasPrefix(e, "TZ=") && !strings.HasPrefix(e, "SOURCE_DATE_EPOCH=") {
 				env = append(env, e)
 			}
 		}
 		if tz != "" {
 			env = append(env, "TZ="+tz)
 		}
+		env = append(env, parts[1:]...)
 		cmd.Env = append(env, "VCHECK_C06_CHILD=1", "VCHECK_CHILD=1", fmt.Sprintf("VCHECK_C06_N=%d", per))
 		var stderr bytes.Buffer
 		cmd.Stderr = &stderr
@@ -286,6 +299,9 @@ func checkC06(r *mon.Run) {
 		tzName := tz
 		if tz == "" {
 			tzName = "unset"
+		}
+		if len(parts) > 1 {
+			tzName += "+env(" + strings.Join(parts[1:], ",") + ")"
 		}
 		if err != nil {
 			if ee, ok := err.(*exec.ExitError); ok && ee.ExitCode() == 1 && !strings.Contains(stderr.String(), "goroutine ") {
@@ -414,6 +430,34 @@ func checkC06(r *mon.Run) {
 			}
 			if bad {
 				continue
+			}
+			// a second independent implementation (it reads the signer's algorithm identifiers, which
+			// the RFC reference verifier does not)
+			{
+				wrapped := refder.TLV(0x30, refder.TLV(0x06, refder.OID(1, 2, 840, 113549, 1, 7, 2)), refder.TLV(0xA0, a.Data))
+				var merr, mnear error
+				if p := tryP(func() {
+					p7, err := mozpkcs7.Parse(wrapped)
+					if err != nil {
+						merr = fmt.Errorf("parse: %w", err)
+						return
+					}
+					p7.Content = good
+					merr = p7.Verify()
+					p7.Content = c06Buffer(c.Name, guidWire, c.Attrs, a.RawTime, c.Payload, "payload-changed")
+					mnear = p7.Verify()
+				}); p != "" {
+					merr = fmt.Errorf("panic: %s", p)
+				}
+				if merr != nil {
+					fail("mozilla-rejects", "go.mozilla.org/pkcs7 rejects the signature over name‖GUID‖attrs‖timestamp‖payload: "+merr.Error())
+					continue
+				}
+				if mnear == nil {
+					fail("mozilla-accepts-payload-changed", "go.mozilla.org/pkcs7 accepts the signature over a buffer with a changed payload")
+					continue
+				}
+				r.Count("mozilla_verified", 1)
 			}
 			if haveOpenssl() && osslUsed < osslBudget {
 				osslUsed++
